@@ -1,5 +1,5 @@
 """C03 - FASTA output is exactly the output AGP applied to the input FASTA.  Spec: Fasta.tla parts 1 and 4, FastaTrace.tla.
-The end-to-end clause runs the real pretext-to-asm CLI (FASTA in, FASTA + AGP out, stream buffers 16 / 64 / 250000) and judges every written
+The end-to-end clause runs the real pretext-to-asm CLI (FASTA in, FASTA + AGP out, stream buffers 7 / 64 / 250000) and judges every written
 record as the stream of the rows its companion AGP lists over the input FASTA (harness/cli_engine.py cli_fasta_case)."""
 from harness import common as C
 from harness import fasta_engine as E
